@@ -10,6 +10,7 @@ import (
 	"fmt"
 	"os"
 	"path/filepath"
+	"runtime"
 	"sort"
 	"strconv"
 	"strings"
@@ -121,7 +122,49 @@ func NewRun(prop, engine, level string) *Run {
 		}
 		r.findings = doc.Findings
 	}
+	go r.watchdog()
 	return r
+}
+
+// watchdog bounds every engine run: a check must end with a verdict. If it has not after a generous
+// wall-clock limit (VERIF_WATCHDOG_MIN; default 25 minutes quick, 4 hours thorough) the goroutines are
+// dumped, the one parked inside collector code (if any) is named, and the process exits 3 - a harness
+// error, never a verdict on the property. (The code under test runs in-process in several engines; a
+// change that makes a decoder wait for ever must not make the check wait for ever.)
+func (r *Run) watchdog() {
+	lim := 25 * time.Minute
+	if r.Tier == "thorough" {
+		lim = 4 * time.Hour
+	}
+	if v, err := strconv.Atoi(os.Getenv("VERIF_WATCHDOG_MIN")); err == nil && v > 0 {
+		lim = time.Duration(v) * time.Minute
+	}
+	time.Sleep(lim)
+	buf := make([]byte, 8<<20)
+	buf = buf[:runtime.Stack(buf, true)]
+	dump := filepath.Join(os.Getenv("VERIF_RUN"), "watchdog-goroutines.txt")
+	os.WriteFile(dump, buf, 0o644)
+	parked := ""
+	for _, g := range strings.Split(string(buf), "\n\n") {
+		head := g
+		if i := strings.IndexByte(g, '\n'); i > 0 {
+			head = g[:i]
+		}
+		if !(strings.Contains(head, "[chan ") || strings.Contains(head, "[select") || strings.Contains(head, "[semacquire") || strings.Contains(head, "[sync.")) {
+			continue
+		}
+		for _, l := range strings.Split(g, "\n") {
+			if strings.HasPrefix(l, "github.com/EdgeCast/vflow/") {
+				parked = fmt.Sprintf("; a goroutine is parked %s in %s", head[strings.IndexByte(head, '['):], strings.TrimPrefix(l, "github.com/EdgeCast/vflow/"))
+				break
+			}
+		}
+		if parked != "" {
+			break
+		}
+	}
+	fmt.Printf("HARNESS-ERROR property=%s engine=%s no verdict after %v (goroutine dump: %s)%s\n", r.Prop, r.Engine, lim, dump, parked)
+	os.Exit(3)
 }
 
 // SetRule records how cases are generated and what makes one distinct and non-trivial.
